@@ -351,6 +351,13 @@ def check_complex(case):
     if not r.ok:
         res.label("run-failed")
         res.nontrivial = False
+        if case.get("tit") is not None:
+            # the harness pKa source returns no rows: the titration route changes no state, so it may
+            # not turn a working complex into a failing one (e.g. by stripping the ligand's hydrogens)
+            r_plain = pipeline.run(s.text(), [o for o in opts if not o.startswith(("--titration", "--with-ph"))],
+                                   extra_files={"lig.mol2": mol_text})  # fmt: skip
+            if r_plain.ok:
+                res.bad("C16:complex:fails-only-on-titration-route", f"complex runs without titration but fails with it: {r.exc_text[:120]}")
         return res
     lines = colfmt.read_pqr_text(r.pqr_text, "--whitespace" in case["opts"])
     lig_lines = [ln for ln in lines if ln["resn"] == "LIG"]
